@@ -19,6 +19,8 @@ def run(chk, tier):
         O.tuple_slots(chk, F, 'R17.3', cfg)
         O.leaves(chk, F, 'R17.4', cfg)
         O.conversion_flavour(chk, F, 'R17.5', cfg)
+        from props import builder as B
+        B.conversion_table(chk, F, 'R17.6', cfg)
         # R17.3 slot separation by distinct type parameters
         n = 0
         for im in F.impls:
